@@ -140,6 +140,25 @@ pub fn dec_op(x: &Sx) -> Op {
     }
 }
 
+/// Drops `x` — when `unwinding`, from a frame that is unwinding from a panic (as when the task that owns the entry or
+/// a guard fails).  A drop is a drop: the property quantifies over every placement of it, the model's answer is the same.
+pub fn drop_placed<T>(x: T, unwinding: bool) {
+    if !unwinding {
+        drop(x);
+        return;
+    }
+    struct Marker;
+    let r = std::panic::catch_unwind(std::panic::AssertUnwindSafe(move || {
+        let _held = x;
+        std::panic::resume_unwind(Box::new(Marker));
+    }));
+    match r {
+        Err(p) if p.is::<Marker>() => {}
+        Err(p) => std::panic::resume_unwind(p),
+        Ok(()) => {}
+    }
+}
+
 /// The real objects of one history.
 pub struct World {
     pub owners: Vec<OwnerRef>,
@@ -148,13 +167,15 @@ pub struct World {
     pub sink: Sink,
     /// the mutations that were really applied (an owner was alive), in order of application
     pub applied_muts: Vec<u64>,
+    /// every drop of this history happens during an unwind
+    pub unwinding: bool,
 }
 impl World {
     pub fn new() -> World {
         let sink = Sink::default();
         sink.tracker.owners.store(1, SeqCst);
         let owner = E::default().append_on_drop(sink.clone());
-        World { owners: vec![OwnerRef::Direct(owner)], fgs: vec![], ffs: vec![], sink, applied_muts: vec![] }
+        World { owners: vec![OwnerRef::Direct(owner)], fgs: vec![], ffs: vec![], sink, applied_muts: vec![], unwinding: false }
     }
     /// Applies one action; actions that are not enabled (no such object) are skipped, as in the model.
     pub fn apply(&mut self, op: Op) {
@@ -219,11 +240,11 @@ impl World {
                     match o {
                         // every other time through metrique::instrument::Instrumented::emit ("emit the metrics and
                         // return the value"), which must be the same as dropping the owner
-                        OwnerRef::Direct(o) if k0 % 2 == 1 => {
+                        OwnerRef::Direct(o) if k0 % 2 == 1 && !self.unwinding => {
                             let v = metrique::instrument::Instrumented::from_parts(k0, o).emit();
                             assert_eq!(v, k0);
                         }
-                        o => drop(o),
+                        o => drop_placed(o, self.unwinding),
                     }
                 }
             }
@@ -232,7 +253,7 @@ impl World {
                     let k = k % self.fgs.len();
                     let g = self.fgs.remove(k);
                     t.fgs.fetch_sub(1, SeqCst);
-                    drop(g);
+                    drop_placed(g, self.unwinding);
                 }
             }
             Op::DropForce(k) => {
@@ -240,16 +261,17 @@ impl World {
                     let k = k % self.ffs.len();
                     let g = self.ffs.remove(k);
                     t.forced.fetch_add(1, SeqCst);
-                    drop(g);
+                    drop_placed(g, self.unwinding);
                 }
             }
         }
     }
 }
 
-fn exec_seq(ops: &[Op]) -> Sx {
+fn exec_seq(ops: &[Op], unwinding: bool) -> Sx {
     progress();
     let mut w = World::new();
+    w.unwinding = unwinding;
     let mut obs = vec![];
     for &op in ops {
         w.apply(op);
@@ -632,7 +654,9 @@ pub fn exec(case: &Sx) -> (Sx, bool) {
             let ops: Vec<Op> = case.arg(0).list().iter().map(dec_op).collect();
             let guards = ops.iter().any(|o| matches!(o, Op::NewFlush | Op::NewForce));
             let owner_dropped = ops.iter().any(|o| matches!(o, Op::DropOwner(_)));
-            (exec_seq(&ops), guards && owner_dropped)
+            // second argument (the model does not read it): every drop is placed on an unwinding frame
+            let unwinding = case.list().len() > 2 && case.arg(1).num() != 0;
+            (exec_seq(&ops, unwinding), guards && owner_dropped)
         }
     }
 }
@@ -949,6 +973,9 @@ pub fn run(ctx: &Ctx) {
     start_watchdog();
     let mut out = Out::new(ctx, "");
     let emit = |out: &mut Out, case: Sx| {
+        if case.tag() == 0 && case.list().len() > 2 {
+            out.inflight(&case);
+        }
         let (imp, nt) = exec(&case);
         out.case(&case, &imp, nt);
     };
@@ -983,6 +1010,11 @@ pub fn run(ctx: &Ctx) {
     for ops in &all {
         out.count(&format!("exhaustive_len_{:02}", ops.len()));
         emit(&mut out, sx::tag(0, vec![Sx::L(ops.iter().map(enc_op).collect())]));
+    }
+    // the same histories with every drop performed by a frame that is unwinding from a panic
+    for ops in all.iter().filter(|o| o.len() <= if ctx.tier_thorough { 10 } else { 8 }) {
+        out.count("histories_with_drops_during_unwind");
+        emit(&mut out, sx::tag(0, vec![Sx::L(ops.iter().map(enc_op).collect()), sx::boolean(true)]));
     }
     out.add("exhaustive_histories", all.len() as u64);
     let mut rng = Rng::new(ctx.seed);
